@@ -401,10 +401,10 @@ class Driver:
                     if op.get("wd"):          # put_metadata(..., store_with_data=True): next to the result object
                         cur = self.current.get((op["f"], op["h"]))
                         swck = cur.content_key if cur is not None else None
-                    b.write_metadata(self.keyrefs([(op["f"], op["h"])])[0], "mk%d" % op["mk"],
+                    b.write_metadata(self.keyrefs([(op["f"], op["h"])])[0], MKNAME.get(op["mk"], "mk%d" % op["mk"]),
                                      ("meta-bytes-%d" % op["b"]).encode(), store_with_content_key=swck)
                 elif name == "ReadMetadata":
-                    res = b.read_metadata(self.keyrefs([(op["f"], op["h"])])[0], "mk%d" % op["mk"])
+                    res = b.read_metadata(self.keyrefs([(op["f"], op["h"])])[0], MKNAME.get(op["mk"], "mk%d" % op["mk"]))
                     if res is None:
                         ev["ret"] = 0
                     else:
@@ -430,6 +430,9 @@ class Driver:
         if self.cfg.get("cas"):
             ev["cas"], ev["mem"] = self.proj_cas()
         self.events.append(ev)
+
+
+MKNAME = {3: ""}        # metadata key 3 is the empty string
 
 
 def run_job(job):
